@@ -6,6 +6,8 @@ from bookgen import enc, dec, Err, BLANK
 
 
 def setup():
+    import logging
+    logging.disable(logging.CRITICAL)      # the library logs a traceback for every unimplemented function / missing file
     global ExcelModel, XlError, Error, EMPTY, Ranges, sh
     import schedula as sh
     import formulas
